@@ -191,6 +191,7 @@ func (c *memConn) take() [][]byte {
 
 var expProc *exporter.ExportingProcess
 var expConn *memConn
+var expReused entities.Set
 
 // writesToken renders the messages written during one call; the export time (bytes 4..8) of
 // every message of at least 16 bytes is checked against the wall-clock window and zeroed.
@@ -227,6 +228,7 @@ func engExp(a []string) string {
 			return "bad-op"
 		}
 		expConn = &memConn{}
+		expReused = nil
 		expProc = exporter.VerifNewExporter(expConn, uint32(dom))
 		return "ok"
 	}
@@ -263,7 +265,20 @@ func engExp(a []string) string {
 		if !ok || err != nil {
 			return "bad-op"
 		}
-		set := entities.NewSet(false)
+		// path "0r" / "1r" / "2r": the application recycles ONE set (ResetSet, PrepareSet, adds), as
+		// long-running exporters do; otherwise a fresh set per call
+		path := a[1]
+		var set entities.Set
+		if strings.HasSuffix(path, "r") {
+			path = strings.TrimSuffix(path, "r")
+			if expReused == nil {
+				expReused = entities.NewSet(false)
+			}
+			expReused.ResetSet()
+			set = expReused
+		} else {
+			set = entities.NewSet(false)
+		}
 		prepErr := set.PrepareSet(st, uint16(setid))
 		if st == entities.Undefined {
 			set.ResetSet() // a set whose type is Undefined (NewSet alone leaves the zero value, Template)
@@ -283,7 +298,7 @@ func engExp(a []string) string {
 					return "bad-op"
 				}
 				if prepErr == nil {
-					if err := addByPath(set, a[1], 2, uint16(tid), elems); err != nil {
+					if err := addByPath(set, path, 2, uint16(tid), elems); err != nil {
 						return "builderr"
 					}
 				}
